@@ -12,6 +12,7 @@ Pipeline of every check (DESIGN.md §2, §4):
 """
 from __future__ import annotations
 
+import json
 import random
 import time
 
@@ -116,6 +117,19 @@ def gen_c16(seed, policy=None):
         agents = {{"Sb": "G-1", "Sc": "G-10"}.get(k, k): dict(v, target="G", **({"multi": dict(v["multi"], targets=["G", "G2"])} if v.get("multi") else {}))
                   for k, v in agents.items()}
         rn = {"Sa": "G", "Sf": "G2", "Sb": "G-1", "Sc": "G-10", "Sd": "G-2", "Se": "G20"}
+        illegal = [dict(i_, sid=rn.get(i_["sid"], i_["sid"]), target=rn.get(i_["target"], i_["target"])) for i_ in illegal]
+        beh = dict(beh, agents=agents, illegal=illegal)
+    elif rng.random() < 0.45:
+        # the ROLES rotate over the ids: many worlds are built in one process, and the id that names the served simulator in one
+        # world names an agent, or a simulator nobody may address, in another (permissions are per world, not per id)
+        names = ["Sa", "Sb", "Sc", "Sd", "Se", "Sf"]
+        perm = names[:]
+        rng.shuffle(perm)
+        rn = dict(zip(names, perm))
+        scn = S.rename_sids(scn, rn)
+        agents = {rn.get(k, k): dict(v, target=rn.get(v["target"], v["target"]),
+                                     **({"multi": dict(v["multi"], targets=[rn.get(x, x) for x in v["multi"]["targets"]])} if v.get("multi") else {}))
+                  for k, v in agents.items()}
         illegal = [dict(i_, sid=rn.get(i_["sid"], i_["sid"]), target=rn.get(i_["target"], i_["target"])) for i_ in illegal]
         beh = dict(beh, agents=agents, illegal=illegal)
     if rng.random() < 0.15:
@@ -231,7 +245,26 @@ def gen_chain(seed, policy=None):
                    "policy": dict(policy or {"kind": "random", "early": [0.0, 0.5][j]})}
 
 
-explore.GENERATORS.update({"c13": gen_c13, "c16": gen_c16, "c09": gen_c09, "paths": gen_paths, "pending": gen_pending, "chain": gen_chain})
+def gen_rt10(seed, policy=None):
+    """Real-time runs for C10: consumers SLOWER than real time (step durations of 1.5 - 3 real-time steps) under lazy stepping;
+    half of the simulators declare `set_events: True` in their meta."""
+    from checks import rt as _rt
+
+    rng = random.Random(f"rt10|{seed}")
+    for c in _rt.gen_rt(seed):
+        if c["id"][1] != "rt" or c["scn"].get("transport") == "local" or c["scn"]["rt"].get("external"):
+            continue
+        scn = json.loads(json.dumps(c["scn"]))
+        scn["lazy"] = True
+        scn["rt"]["instant"] = False
+        for x in scn["sims"]:
+            if rng.random() < 0.5:
+                x["set_events"] = True
+        beh = dict(c["behaviour"], durations=rng.choice([[0, 3, 6], [3, 4], [0, 0, 5]]))
+        yield dict(c, id=[seed, "rt10"], scn=scn, behaviour=beh)
+
+
+explore.GENERATORS.update({"rt10": gen_rt10, "c13": gen_c13, "c16": gen_c16, "c09": gen_c09, "paths": gen_paths, "pending": gen_pending, "chain": gen_chain})
 
 # --------------------------------------------------------------------------- profiles
 
@@ -264,7 +297,8 @@ PROFILES = {
     "C07": [("random", {"fam": {"types": ["event-based", "hybrid", "hybrid"], "until": (3, 5)}, "behaviour": {"ev_next": [None, 1, 2, 3]}}),
             ("random", {"fam": {"types": ["hybrid"], "nsims": (2, 3), "nconns": (2, 5), "until": (3, 5)}, "policy": {"early": 0.6}}),
             ("paths", {"frac": 0.3})],
-    "C10": [("random", {"fam": {"p_async": 0.1}, "lazy": (True,)}),
+    "C10": [("rt10", {"frac": 0.25}),
+            ("random", {"fam": {"p_async": 0.1}, "lazy": (True,)}),
             ("random", {"fam": {"types": ["time-based", "hybrid"], "nconns": (2, 6)}, "lazy": (True,), "behaviour": {"tb_next": [1, 1, 2, 3]}})],
     "C09": [("c09", {}), ("random", {"fam": {"weak": 0.9, "maxloop": 2, "siblings": False}, "behaviour": {"p_event": 0.9}})],
     "C13": [("c13", {}), ("c13", {"fam": {"groups": False}, "policy": {"early": 0.6}})],
